@@ -519,8 +519,25 @@ impl Drop for Driver {
             match entry.user_data() {
                 Self::CANCEL | Self::NOTIFY => {}
                 key => {
-                    self.in_flight.remove(&(key as usize));
-                    drop(unsafe { ErasedKey::from_raw(key as _) });
+                    let flags = entry.flags();
+                    if more(flags) {
+                        // Not the final completion: the kernel still owns the
+                        // request, so its reference must be kept until the
+                        // ring is closed. Hand the item over to the operation
+                        // so that the resources it carries are released with
+                        // it.
+                        let key = unsafe { BorrowedKey::from_raw(key as _) };
+                        let mut key = key.borrow();
+                        let mut extra: crate::sys::Extra = IourExtra::new().into();
+                        extra.set_flags(flags);
+                        unsafe {
+                            key.carrier
+                                .push_multishot(create_result(entry.result()), extra);
+                        }
+                    } else {
+                        self.in_flight.remove(&(key as usize));
+                        drop(unsafe { ErasedKey::from_raw(key as _) });
+                    }
                 }
             }
         }
